@@ -296,7 +296,7 @@ func (fv *FuncVerifier) execRangeMap(s *ast.RangeStmt, ls *LoopSpec, ord int, la
 		reject("range over unmodelled map at %s", fv.pos(s.Pos()))
 	}
 	dom0, val0 := fv.mapRead(m, st)
-	dom0 = fv.def("dom0", ite(eq(m, Term{"0", sortInt}), mk(dom0.Sort, "((as const %s) false)", dom0.Sort.Name), dom0))
+	dom0 = fv.u.defineConst("dom0", ite(eq(m, Term{"0", sortInt}), mk(dom0.Sort, "((as const %s) false)", dom0.Sort.Name), dom0))
 	val0 = fv.def("val0", val0)
 	seenSort := dom0.Sort
 	seen := types.NewVar(s.Pos(), nil, "seen", types.Typ[types.Bool])
@@ -308,7 +308,7 @@ func (fv *FuncVerifier) execRangeMap(s *ast.RangeStmt, ls *LoopSpec, ord int, la
 	cfg := &loopCfg{
 		loop: s, body: s.Body, ls: ls, ord: ord, label: label, extraMods: []types.Object{seen},
 		autoInv: func(st *State) Term {
-			return mk(sortBool, "(forall ((k!c %s)) (! (=> (select %s k!c) (select %s k!c)) :pattern ((select %s k!c))))", m.Sort.Key.Name, st.vars[seen].S, dom0.S, st.vars[seen].S)
+			return mk(sortBool, "(forall ((k!c %s)) (=> (select %s k!c) (select %s k!c)))", m.Sort.Key.Name, st.vars[seen].S, dom0.S)
 		},
 		condSetup: func(st *State) Term {
 			k := fv.u.freshConst("rk", m.Sort.Key)
